@@ -405,8 +405,13 @@ Record trace := mkTrace { t_limit : N; t_nonbuf : bool; t_posticks : N; t_quiet 
 Definition cfg_of (t : trace) : cfg :=
   mkCfg (t_limit t) (t_nonbuf t) (t_posticks t) c09_plog_read_batch_size c09_pipeline_stdin_cap c09_null_wsid_last c09_flush_view_last.
 
+(* every observed action is enabled in the model with the observed values, and when the harness
+   found the real actualizer quiescent at the end, the model's state is quiescent too *)
 Definition agrees (t : trace) : bool :=
-  match elaborate (cfg_of t) init (t_acts t) with Some _ => true | None => false end.
+  match elaborate (cfg_of t) init (t_acts t) with
+  | Some (_, s) => negb (t_quiet t) || quiescentb s
+  | None => false
+  end.
 
 (* ---- the property on the observed actions alone ----
    Reconstructed from observations only: the log (Append), what is persisted (the storage calls that
